@@ -322,7 +322,7 @@ class KindEval:
                 else:
                     elem = UNKNOWN if leaks(it) else PY
                 self.bind(gen.target, elem, inner)
-                if gen.ifs and leaks(it):
+                if gen.ifs and leaks(it) and not self._only_skips_index(gen):
                     self.shape_issues.append((meth, expr, "comprehension over the raw result filters items"))
             if isinstance(expr, ast.DictComp):
                 return DICT(self.kind(meth, expr.key, inner), self.kind(meth, expr.value, inner))
@@ -337,6 +337,9 @@ class KindEval:
                 return base[expr.slice.value + 1]
             if base[0] == "rawvb":
                 return RAWVAL
+            if base[0] == "row":
+                # util.tablify stores the row index (a str) under "0"; every other cell is an x690 value (C16-R2)
+                return STR if isinstance(expr.slice, ast.Constant) and expr.slice.value == "0" else RAWVAL
             if base == PYROW or base == PY:
                 return PY
             return UNKNOWN if leaks(base) else PY
@@ -359,6 +362,35 @@ class KindEval:
         if isinstance(expr, ast.IfExp):
             return join(self.kind(meth, expr.body, env), self.kind(meth, expr.orelse, env))
         return UNKNOWN
+
+    @staticmethod
+    def _only_skips_index(gen: ast.comprehension) -> bool:
+        """The only filter is `<key> != "0"`: the row-index entry, which is carried over separately (C16-R5)."""
+        if len(gen.ifs) != 1:
+            return False
+        test = gen.ifs[0]
+        if isinstance(test, ast.Compare) and len(test.ops) == 1 and isinstance(test.ops[0], ast.NotEq):
+            sides = [test.left, test.comparators[0]]
+            consts = [x for x in sides if isinstance(x, ast.Constant) and x.value == "0"]
+            names = [x for x in sides if isinstance(x, ast.Name)]
+            tgt_names = {n.id for n in ast.walk(gen.target) if isinstance(n, ast.Name)}
+            return len(consts) == 1 and len(names) == 1 and names[0].id in tgt_names
+        return False
+
+    def helper_kind(self, helper: FuncInfo, arg_kinds: Dict[str, Any]):
+        """Kind returned by a module-level helper of the wrapper's module for the given argument kinds."""
+        key = (helper.key, tuple(sorted((k, repr(v)) for k, v in arg_kinds.items())))
+        if key in self.method_kinds:
+            return self.method_kinds[key]
+        self.method_kinds[key] = UNKNOWN  # recursion guard
+        env: Dict[str, Any] = dict(arg_kinds)
+        results: List[Tuple[Any, ast.AST]] = []
+        self.exec_block(helper, helper.node.body, env, results)
+        kind = None
+        for k, _ in results:
+            kind = join(kind, k)
+        self.method_kinds[key] = kind if kind is not None else NONE
+        return self.method_kinds[key]
 
     def call_kind(self, meth: FuncInfo, call: ast.Call, env: Dict[str, Any]):
         func = call.func
@@ -410,6 +442,13 @@ class KindEval:
                 if cls.key == "puresnmp.varbind:PyVarBind":
                     kinds = [self.kind(meth, a, env) for a in call.args]
                     return PY if not any(leaks(k) for k in kinds) else TUPLE(*kinds)
+            # a helper function of the repository: evaluate its body for these argument kinds
+            for callee in self.ctx.r.callees(meth, call):
+                if isinstance(callee, FuncInfo) and not callee.module.external and callee.cls is None:
+                    from ..engine.context import bind_call_args
+
+                    bound = bind_call_args(call, callee.params, skip_self=False)
+                    return self.helper_kind(callee, {p: self.kind(meth, a, env) for p, a in bound.items()})
             return UNKNOWN
         if isinstance(func, ast.Attribute):
             # self.client.<raw method>(...)
@@ -468,9 +507,9 @@ BUILTIN_WRAPPED = {"int", "bytes", "str", "None", "bool", "float", "IPv4Address"
 
 
 def run(ctx: Ctx, rep: Report) -> None:
-    rep.rule("C15-R1", "every value returned or yielded by a public wrapper method is free of raw (x690 / ObjectIdentifier / VarBind) leaves, keys included", floor=11)
-    rep.rule("C15-R2", "conversions iterate the raw result once, unfiltered and in order", floor=11)
-    rep.rule("C15-R3", "every SNMP value type wraps a builtin python type", floor=10)
+    rep.rule("C15-R1", "every value returned or yielded by a public wrapper method is free of raw (x690 / ObjectIdentifier / VarBind) leaves, keys included", floor=8)
+    rep.rule("C15-R2", "conversions iterate the raw result once, unfiltered and in order", floor=6)
+    rep.rule("C15-R3", "every SNMP value type wraps a builtin python type", floor=7)
     rep.assumptions += ["BulkResult (a plain dataclass of two dicts) is the documented container of bulkget and is accepted as such; its fields must be builtin"]
     wrapper = ctx.wrapper()
     client = ctx.client()
